@@ -78,7 +78,8 @@ def generate(rng, kind, n):
             for pos in variant_positions(desc[3]):
                 opts += [("variant", pos, f, v) for f, vs in CI_VARIANT.items() for v in vs]
                 if len(pos) > 1:
-                    opts.append(("variant", pos, "arches+", "foreign"))      # child arch outside its parent's
+                    for extra in ("foreign", "src", "nosrc", "noarch"):      # child arch outside its parent's (no name is exempt)
+                        opts.append(("variant", pos, "arches+", extra))
                 else:
                     opts.append(("variant", pos, "arches", [5]))             # documented: a set of architecture NAMES
                 opts.append(("variant", pos, "paths.os_tree", 5))            # documented: arch -> relative path (str)
@@ -155,7 +156,7 @@ def corrupt_content(case):
             for k in pos[1:]:
                 t = t[3][k]
             if f == "arches+":
-                t[0]["arches"] = sorted(t[0]["arches"] + ["foreign"])
+                t[0]["arches"] = sorted(t[0]["arches"] + [v])
             elif f == "paths.os_tree":
                 t[1]["os_tree"] = {t[0]["arches"][0]: v}
             else:
@@ -247,7 +248,7 @@ def impl(case):
                 for k in pos[1:]:
                     t = t.variants[k]
                 if f == "arches+":
-                    t.arches = set(t.arches) | {"foreign"}
+                    t.arches = set(t.arches) | {v}
                 elif f == "arches":
                     t.arches = set(v)
                 elif f == "paths.os_tree":
